@@ -11,6 +11,7 @@ import (
 	"github.com/fiorix/go-diameter/v4/diam/dict"
 	"verif/internal/atoms"
 	"verif/internal/refcodec"
+	"verif/internal/refdict"
 	"verif/vnet"
 	vs "verif/vsched"
 	"verif/vsched/vsync"
@@ -88,8 +89,15 @@ func c06Firsts() (names []string, wires [][]byte) {
 
 // c06OddFirsts: one AVP of every declared type carrying payloads of unexpected lengths (the
 // lenient decode paths), including the IPv4-mapped 16-byte and family-prefixed shapes.
-func c06OddFirsts() (names []string, wires [][]byte) {
+func c06OddFirsts() (names []string, wires [][]byte, parsers []*dict.Parser) {
 	c06Setup()
+	defer func() {
+		for len(parsers) < len(wires) {
+			parsers = append(parsers, nil)
+		}
+		gn, gw, gp := c06OddGroups()
+		names, wires, parsers = append(names, gn...), append(wires, gw...), append(parsers, gp...)
+	}()
 	hdr := refcodec.Header{Version: 1, Flags: 0x80, Code: 777, App: 0, HbH: 1, E2E: 1}
 	mapped := []byte{0, 0, 0, 0, 0, 0, 0, 0, 0, 0, 0xff, 0xff, 10, 1, 2, 3}
 	for k := atoms.Kind(0); k < atoms.NKinds; k++ {
@@ -109,6 +117,61 @@ func c06OddFirsts() (names []string, wires [][]byte) {
 		for _, p := range payloads {
 			names = append(names, fmt.Sprintf("odd/%s/len%d:%x", k, len(p), p[:min(len(p), 4)]))
 			wires = append(wires, refcodec.EncodeMessage(hdr, []refcodec.Node{{Code: d.Code, Flags: 0x40, Payload: p}}))
+		}
+	}
+	return
+}
+
+// c06OddGroups: every Grouped AVP of the base application of the default dictionary (and the
+// generated dictionary's groups) carrying member data that does not parse as AVPs, or parses
+// only partly - if the decoder accepts such a message, what it keeps must still be a copy.
+func c06OddGroups() (names []string, wires [][]byte, parsers []*dict.Parser) {
+	emb, err := refdict.LoadEmbedded(repoRoot())
+	if err != nil {
+		panic(err)
+	}
+	model := refdict.NewModel()
+	for _, e := range emb {
+		model.Load(e.XML)
+	}
+	type gdef struct {
+		code, vendor uint32
+		p            *dict.Parser
+		hdr          refcodec.Header
+		name         string
+	}
+	var groups []gdef
+	for _, v := range model.All {
+		if v.App == 0 && v.Data.Type == "Grouped" && model.FindCode(0, v.Code, v.Vendor) == v {
+			groups = append(groups, gdef{v.Code, v.Vendor, dict.Default, refcodec.Header{Version: 1, Flags: 0x80, Code: 257, App: 0, HbH: 1, E2E: 1}, v.Name})
+		}
+	}
+	for _, g := range c06Alpha.Groups {
+		groups = append(groups, gdef{g.Code, g.Vendor, c06Dict.P, refcodec.Header{Version: 1, Flags: 0x80, Code: 777, App: 0, HbH: 1, E2E: 1}, g.Name})
+	}
+	valid := refcodec.EncodeAVP(refcodec.Node{Code: 60001, Payload: []byte("opaque-1")})
+	shapes := []struct {
+		name string
+		b    []byte
+	}{
+		{"member-length-5", []byte{0, 0, 1, 0x16, 0x40, 0, 0, 5, 0xDE, 0xAD, 0xBE, 0xEF, 0xCA, 0xFE, 0xBA, 0xBE}},
+		{"member-length-0", []byte{0, 0, 1, 0x16, 0x40, 0, 0, 0, 0xDE, 0xAD, 0xBE, 0xEF}},
+		{"member-overstated", []byte{0, 0, 1, 0x16, 0x40, 0, 0, 64, 1, 2, 3, 4}},
+		{"seven-bytes", []byte{1, 2, 3, 4, 5, 6, 7}},
+		{"valid-then-3-bytes", append(append([]byte{}, valid...), 9, 9, 9)},
+		{"valid-then-truncated-header", append(append([]byte{}, valid...), 0, 0, 1, 8, 0x40, 0)},
+		{"valid-member", valid},
+		{"empty", nil},
+	}
+	for _, g := range groups {
+		for _, sh := range shapes {
+			n := refcodec.Node{Code: g.code, Flags: 0x40, Payload: sh.b}
+			if g.vendor != 0 {
+				n.Flags, n.Vendor = 0xC0, g.vendor
+			}
+			names = append(names, fmt.Sprintf("odd-group/%s(%d)/%s", g.name, g.code, sh.name))
+			wires = append(wires, refcodec.EncodeMessage(g.hdr, []refcodec.Node{n}))
+			parsers = append(parsers, g.p)
 		}
 	}
 	return
@@ -201,10 +264,11 @@ func c06Histories(r *SeqResult, thorough bool) {
 		}
 	}
 	rec(nil)
-	oddNames, oddWires := c06OddFirsts()
+	oddNames, oddWires, oddParsers := c06OddFirsts()
 	nReg := len(names)
 	names = append(names, oddNames...)
 	wires = append(wires, oddWires...)
+	parsers := append(make([]*dict.Parser, nReg), oddParsers...)
 	shortSeqs := [][]step{{{0, 0}}, {{0, 1}}, {{1, 0}}, {{0, 0}, {0, 1}}}
 	for i, name := range names {
 		w := wires[i]
@@ -223,7 +287,11 @@ func c06Histories(r *SeqResult, thorough bool) {
 					streams[st.reader] = append(streams[st.reader], c06Follow(len(w), st.kind, j)...)
 				}
 				rd := [2]*bytes.Reader{bytes.NewReader(streams[0]), bytes.NewReader(streams[1])}
-				m1, err := diam.ReadMessage(rd[0], c06Dict.P)
+				p1 := c06Dict.P
+				if parsers[i] != nil {
+					p1 = parsers[i]
+				}
+				m1, err := diam.ReadMessage(rd[0], p1)
 				if err != nil {
 					if i >= nReg {
 						return // an odd payload the decoder rejects is never retained
